@@ -60,6 +60,12 @@ def gen_score(rnd, lib, nonascii=True):
                 if sb in ('xs:string',) and not len(n):
                     n.text = rnd.choice(['Größe', 'naïve café', '作品', '𝄞 clef', 'plain', 'Ünïcödé', 'line\u2028separator',
                                          'next\u0085line', 'para\u2029graph', 'two\nlines', 'cr\rlf\r\n', 'tab\there'])
+        if nonascii and rnd.random() < 0.4:
+            # one long run of multi-byte characters: the UTF-8 length exceeds the character count by more than any block size
+            big = [n for n in el.iter() if not len(n) and (ref.simple_base(ref.eltype(n.tag)) if ref.eltype(n.tag) in ref.ALL
+                                                          else ref.eltype(n.tag)) == 'xs:string']
+            if big:
+                rnd.choice(big).text = rnd.choice(['\u4f5c\u54c1', '\u0416\u0443\u043a', '\U0001d11e']) * rnd.choice([1500, 3000, 9000])
         if ref.validate_doc(el):
             continue
         try:
